@@ -121,11 +121,13 @@ structure Sec where
   unencMeta : Bool := false
   deriving Repr, Inhabited
 
-/-- `encryptInfo` (efF is not used by any modelled path) -/
+/-- `encryptInfo`; `none` is the Identity crypt filter.  `efF` (embedded file streams) is used on
+reading only; the Writer sets all three to the same filter. -/
 structure EncInfo where
   sec : Sec
   strF : Option CryptFilter
   stmF : Option CryptFilter
+  efF : Option CryptFilter := none
   deriving Repr, Inhabited
 
 /-! ## password preparation -/
@@ -609,8 +611,9 @@ def Src.read (s : Src) (room : Nat) : Bytes × Bool × Src :=
   let eof := if rest.isEmpty then (s.eofWithData || n == 0) else false
   (data, eof, { s with rest := rest, sizes := s.sizes.drop 1 })
 
-/-- `io.ReadFull(r, buf)` for `need` bytes: `io.EOF` if nothing could be read, `io.ErrUnexpectedEOF`
-(class `other`) if only a part -/
+/-- `io.ReadFull(r, buf)` for `need` bytes as `DecryptStream` uses it for the IV: `io.EOF` if
+nothing could be read; `io.ErrUnexpectedEOF` (only a part) is turned into a `MalformedFileError`
+("AES stream shorter than its initialisation vector") there -/
 def Src.readFull : Nat → Bytes → Nat → Src → Except Err (Bytes × Src)
   | 0, _, _, _ => .error .other
   | fuel+1, acc, need, s =>
@@ -619,7 +622,7 @@ def Src.readFull : Nat → Bytes → Nat → Src → Except Err (Bytes × Src)
       let r := s.read (need - acc.length)
       let acc := acc ++ r.1
       if acc.length ≥ need then .ok (acc, r.2.2)
-      else if r.2.1 then .error (if acc.isEmpty then .eof else .other)
+      else if r.2.1 then .error (if acc.isEmpty then .eof else .malformed)
       else Src.readFull fuel acc need r.2.2
 
 /-- `decryptReader` state: CBC chaining value, `reserved`, `ready`, and the source (`none` = `r.r == nil`) -/
@@ -642,7 +645,7 @@ def DecR.fill : Nat → Bytes → Option Src → Except Err (Bytes × Option Src
         let r := s.read (32 - buf.length)
         let buf := buf ++ r.1
         if r.2.1 then
-          if buf.length % 16 != 0 then .error .other else DecR.fill fuel buf none
+          if buf.length % 16 != 0 then .error .malformed else DecR.fill fuel buf none
         else DecR.fill fuel buf (some r.2.2)
       else .ok (buf, some s)
 
@@ -663,8 +666,11 @@ def DecR.read (P : Prims) (r : DecR) (want : Nat) : Except Err (Bytes × Bool ×
         let d := cbcDecBlocks P r.key (l / 16) r.iv ct
         if src.isNone then
           match unpadPKCS7 d.1 with
-          | .error e => .error e
+          | .error _ => .error .malformed   -- `&MalformedFileError{Err: err}`: a defect of the file
           | .ok un =>
+            -- the last block was padding only: `return 0, io.EOF`, never a read of nothing without error
+            if un.isEmpty then .ok ([], true, { r with iv := d.2, reserved := buf.drop l, ready := [], src := src })
+            else
             .ok (un.take want, false, { r with iv := d.2, reserved := buf.drop l, ready := un.drop want, src := src })
         else
           .ok (d.1.take want, false, { r with iv := d.2, reserved := buf.drop l, ready := d.1.drop want, src := src })
@@ -697,12 +703,19 @@ def decryptStream (P : Prims) (enc : EncInfo) (num gen : Nat) (src : Src) (wants
       | .rc4 => .ok (rc4 P key src.rest)
       | .aes =>
         match Src.readFull (src.sizes.length + 20) [] 16 src with
+        | .error .eof => .ok []   -- an empty stream stored without IV and padding: empty data
         | .error e => .error e
         | .ok (iv, src') =>
           if !aesKeyOk key then .error .other
           else
             let r : DecR := { key := key, iv := iv, reserved := [], ready := [], src := some src' }
             DecR.readAll P (src.rest.length + 8) r wants 512
+
+/-- `filterCrypt.Decode`: an embedded file stream (`/Type /EmbeddedFile`) is decrypted with the
+`/EFF` crypt filter, every other stream with `/StmF` (`decryptStreamWith(cf, ref, r)`) -/
+def decryptStreamFor (P : Prims) (enc : EncInfo) (embeddedFile : Bool) (num gen : Nat) (src : Src)
+    (wants : List Nat) : Except Err Bytes :=
+  decryptStream P { enc with stmF := if embeddedFile then enc.efF else enc.stmF } num gen src wants
 
 /-! ## reading: `openStdSecHandler`, `parseEncryptDict` -/
 
@@ -833,16 +846,16 @@ def parseEncryptDict (enc : List (Bytes × Obj)) (idLen : Nat) (ID : Bytes) : Ex
   match asInt (dictGet enc "V") with
   | .error e => .error e
   | .ok V =>
-  let cfs : Except Err (Option CryptFilter × Option CryptFilter × Nat) :=
-    if V == 1 then .ok (some ⟨.rc4, 40⟩, some ⟨.rc4, 40⟩, 5)
+  let cfs : Except Err (Option CryptFilter × Option CryptFilter × Option CryptFilter × Nat) :=
+    if V == 1 then .ok (some ⟨.rc4, 40⟩, some ⟨.rc4, 40⟩, some ⟨.rc4, 40⟩, 5)
     else if V == 2 then
       if (dictGet enc "Length").isSome then
         match asInt (dictGet enc "Length") with
         | .error e => .error e
         | .ok len =>
           if len < 40 || len > 128 || len % 8 != 0 then .error .malformed
-          else .ok (some ⟨.rc4, len.toNat⟩, some ⟨.rc4, len.toNat⟩, len.toNat / 8)
-      else .ok (some ⟨.rc4, 40⟩, some ⟨.rc4, 40⟩, 5)
+          else .ok (some ⟨.rc4, len.toNat⟩, some ⟨.rc4, len.toNat⟩, some ⟨.rc4, len.toNat⟩, len.toNat / 8)
+      else .ok (some ⟨.rc4, 40⟩, some ⟨.rc4, 40⟩, some ⟨.rc4, 40⟩, 5)
     else if V == 4 || V == 5 then
       match optional none (asDict (dictGet enc "CF")) with
       | .error e => .error e
@@ -853,18 +866,23 @@ def parseEncryptDict (enc : List (Bytes × Obj)) (idLen : Nat) (ID : Bytes) : Ex
           match selectCF enc "StrF" CF with
           | .error e => .error e
           | .ok strF =>
-            -- the /EFF selector can only fail, it selects nothing that is modelled
-            match selectCF enc "EFF" CF with
+            -- `res.efF = res.stmF // default`, replaced if /EFF names a crypt filter
+            match optional [] (asName (dictGet enc "EFF")) with
             | .error e => .error e
-            | .ok _ => .ok (strF, stmF, if V == 4 then 16 else 32)
+            | .ok effName =>
+              if effName.isEmpty then .ok (strF, stmF, stmF, if V == 4 then 16 else 32)
+              else
+                match getCryptFilter effName CF with
+                | .error e => .error e
+                | .ok efF => .ok (strF, stmF, efF, if V == 4 then 16 else 32)
     else .error .malformed
   match cfs with
   | .error e => .error e
-  | .ok (strF, stmF, keyBytes) =>
+  | .ok (strF, stmF, efF, keyBytes) =>
     if filter != bytesOfString "Standard" then .error .malformed else
     match openStdSec enc V keyBytes ID with
     | .error e => .error e
-    | .ok sec => .ok { sec := sec, strF := strF, stmF := stmF }
+    | .ok sec => .ok { sec := sec, strF := strF, stmF := stmF, efF := efF }
 
 /-- the "eager authentication" at the end of `parseEncryptDict`: the empty password first, the
 supplied one only if that fails and it is not empty -/
@@ -928,6 +946,7 @@ def createStdSec (P : Prims) (id : Bytes) (user owner : Passwd) (ownerEmpty : Bo
 def versionScheme (v : Nat) : CryptFilter × Nat :=
   if v ≥ Gen.ver_V2_0 then (⟨.aes, 256⟩, 5)
   else if v ≥ Gen.ver_V1_6 then (⟨.aes, 128⟩, 4)
+  else if v ≥ Gen.ver_V1_5 then (⟨.rc4, 128⟩, 4)   -- RC4 as crypt filter method /V2: PDF 1.5 has /Crypt filters
   else if v ≥ Gen.ver_V1_4 then (⟨.rc4, 128⟩, 2)
   else (⟨.rc4, 40⟩, 1)
 
@@ -948,6 +967,9 @@ def asEncryptDict (cf : CryptFilter) (sec : Sec) (version : Nat) : Except Err (L
     else if cf.cipher = .aes ∧ cf.length = 128 ∧ version ≥ Gen.ver_V1_6 then
       .ok [(key "V", .int 4), (key "StmF", nameObj "StdCF"), (key "StrF", nameObj "StdCF"),
            (key "CF", .dict [(key "StdCF", .dict [(key "Length", .int 128), (key "CFM", nameObj "AESV2")])])]
+    else if cf.cipher = .rc4 ∧ cf.length = 128 ∧ version ≥ Gen.ver_V1_5 then
+      .ok [(key "V", .int 4), (key "StmF", nameObj "StdCF"), (key "StrF", nameObj "StdCF"),
+           (key "CF", .dict [(key "StdCF", .dict [(key "Length", .int 128), (key "CFM", nameObj "V2")])])]
     else if cf.cipher = .rc4 ∧ cf.length = 40 ∧ version ≥ Gen.ver_V1_1 then
       .ok [(key "V", .int 1)]
     else if cf.cipher = .rc4 ∧ version ≥ Gen.ver_V1_4 then
@@ -1012,7 +1034,7 @@ def newWriterSec (P : Prims) (o : WriterOpt) (rng : Bytes) : Except Err WriterSe
       | .ok (sec, rng) =>
         match asEncryptDict sch.1 sec o.version with
         | .error e => .error e
-        | .ok d => .ok { ids := ids, enc := some { sec := sec, strF := some sch.1, stmF := some sch.1 },
+        | .ok d => .ok { ids := ids, enc := some { sec := sec, strF := some sch.1, stmF := some sch.1, efF := some sch.1 },
                          dict := some d, rng := rng }
 
 /-! ## `Writer.Close`: the ID the key was derived from; `Writer.OpenStream`: the Crypt-first rule -/
@@ -1049,14 +1071,27 @@ def cryptBehindFirst : List FilterKind → Bool
 stream encryption is skipped (`leadingCrypt != nil`; `refIsPlaintext` is a separate input of
 the caller).  Errors (all plain `errors.New`): a Crypt filter not in first position in either
 part, a Crypt filter other than Identity, a Crypt argument behind a dictionary that already has
-filters. -/
-def openStreamChain (dictChain argChain : List FilterKind) : Except Err (List FilterKind × Bool) :=
+filters, a Crypt filter in a file that is encrypted without crypt filters (`encrypted = some
+false`: the encryption dictionary has /V 1 or 2; `none`: the file is not encrypted). -/
+def openStreamChain (dictChain argChain : List FilterKind) (encrypted : Option Bool := none) :
+    Except Err (List FilterKind × Bool) :=
   if cryptBehindFirst argChain then .error .other
   else if argChain.head? == some .cryptOther then .error .other
   else if cryptBehindFirst dictChain then .error .other
   else if dictChain.head? == some .cryptOther then .error .other
   else if argChain.head? == some .cryptIdentity && !dictChain.isEmpty then .error .other
+  else if (argChain.head? == some .cryptIdentity || dictChain.head? == some .cryptIdentity) &&
+      encrypted == some false then .error .other
   else .ok (dictChain ++ argChain,
             argChain.head? == some .cryptIdentity || dictChain.head? == some .cryptIdentity)
+
+/-- `Writer.Close`: the `/Encrypt` entry of the trailer is the dictionary made in `NewWriter` if
+the file is encrypted and is absent otherwise, whatever `MetaInfo.Trailer` (which `GetMeta` hands
+out) holds by then -/
+def closeEncryptEntry (encryptDict : Option Obj) (trailer : List (Bytes × Obj)) : List (Bytes × Obj) :=
+  let rest := trailer.filter fun e => e.1 != key "Encrypt"
+  match encryptDict with
+  | some d => (key "Encrypt", d) :: rest
+  | none => rest
 
 end PdfVerif.SEC
